@@ -180,7 +180,7 @@ static int cond_do_op(int idx, op_t* op) {
     long n = 0;
     while (!c_flag[op->a & 3]) {
       fiber_yield();
-      if (++n > 3000000) vs_violation("livelock", "fiber %d polled 3000000 times for a flag that a mutex holder sets after releasing the mutex", idx);
+      if (++n > 3000000 && !vs_long_stall_run()) vs_violation("livelock", "fiber %d polled 3000000 times for a flag that a mutex holder sets after releasing the mutex", idx);
     }
     return 1;
   }
